@@ -955,9 +955,9 @@ func TestC15(t *testing.T) {
 	ev := vlib.NewEvidence("C15", "exploration",
 		"(0) valid traffic through the fan-out paths of the built pool: a client is cut off for low balance while 0..all of the hosts it reports have already closed their connection - the keep-alive must still be answered; (1) in-process behind recover: well-formed JSON-RPC requests generated per registered endpoint (wrong/right arity, hostile leaves, garbage signatures and identities, and correctly signed requests with hostile parameter values: node URIs, kinds, peer descriptions, counts, wallets) through Server.Handle on the pool+payment+status and agent registrations, plus the pure parsers; every reply must carry the id and a result or error; (2) child processes: the built `vipnode pool` (memory; thorough: persist, race build) fed in batches over WebSocket and HTTP with the same requests (replies collected and checked, same-connection canary), byte/shape garbage, unsolicited/duplicate/empty replies, and a harness playing a malicious host that answers the pool's whitelist call with hostile replies; after every batch a canary on another connection and over HTTP must be answered; every input is logged before it is sent, crashes are keyed by panic message + first repository frames and the child restarted; (3) the built `vipnode agent` connected to a harness playing a malicious pool (8 reply modes); non-trivial = every batch/request; distinct = (target, class, size bucket)")
 	for _, driver := range vlib.Drivers() {
-		c15InProcessSupervised(ev, driver, vlib.Scale(6000, 300000))
+		c15InProcessSupervised(ev, driver, vlib.Scale(6000, 100000))
 	}
-	c15Parsers(ev, vlib.Scale(3000, 200000))
+	c15Parsers(ev, vlib.Scale(3000, 100000))
 	bin, err := vlib.BuildVipnode("plain")
 	if err != nil {
 		fmt.Println("HARNESS-ERROR", err)
@@ -971,7 +971,7 @@ func TestC15(t *testing.T) {
 	}
 	var wg sync.WaitGroup
 	for _, st := range stores {
-		for s := 0; s < vlib.Scale(3, 24); s++ {
+		for s := 0; s < vlib.Scale(3, 12); s++ {
 			wg.Add(1)
 			go func(st string, s int) { defer wg.Done(); c15PoolSession(ev, bin, st, s, vlib.Scale(600, 3000)) }(st, s)
 		}
